@@ -4,6 +4,8 @@ package props
 
 import (
 	"bytes"
+	"crypto/md5"
+	"encoding/base64"
 	"encoding/json"
 	"fmt"
 	"strings"
@@ -33,6 +35,7 @@ type c12Case struct {
 	Prior    bool    `json:"prior,omitempty"`    // the key already holds an object
 	HexUpper bool    `json:"hexUpper,omitempty"` // chunk sizes in upper-case hexadecimal digits
 	ViaPart  bool    `json:"viaPart,omitempty"`  // the stream is part 1 of a multipart upload, which is then completed
+	MD5      bool    `json:"md5,omitempty"`      // the request carries the Content-MD5 of the payload the stream decodes to
 }
 
 var c12Prior = []byte("object stored before the streaming upload")
@@ -129,7 +132,7 @@ func c12Check(cs c12Case) (ds []disc) {
 	}
 	payload := cs.Payload.bytes()
 	fail := func(kind, f string, a ...interface{}) {
-		ds = append(ds, disc{Kind: kind, Detail: fmt.Sprintf("backend=%s/%d payload=%d chunks=%v frag=%+v mut=%s/%d declared=%v prior=%v: ", cs.Backend, cs.StreamBuf, len(payload), trunc([]byte(fmt.Sprint(cs.Chunks)), 60), cs.Frag, cs.Mut, cs.MutK, strOrNil(cs.Declared), cs.Prior) + fmt.Sprintf(f, a...)})
+		ds = append(ds, disc{Kind: kind, Detail: fmt.Sprintf("backend=%s/%d payload=%d chunks=%v frag=%+v mut=%s/%d declared=%v prior=%v: ", cs.Backend, cs.StreamBuf, len(payload), trunc([]byte(fmt.Sprint(cs.Chunks)), 60), cs.Frag, cs.Mut, cs.MutK, strOrNil(cs.Declared), cs.Prior) + fmt.Sprintf("viaPart=%v md5=%v: ", cs.ViaPart, cs.MD5) + fmt.Sprintf(f, a...)})
 	}
 	key := "streamed/object"
 	if cs.Prior {
@@ -155,6 +158,12 @@ func c12Check(cs c12Case) (ds []disc) {
 	mismatch := strings.Trim(declared, " \t") != fmt.Sprint(len(payload))
 	rq := &s3x.Req{Method: "PUT", Path: "/bk0/" + key, Body: stream, Frag: cs.Frag,
 		Header: s3x.H("X-Amz-Content-Sha256", "STREAMING-AWS4-HMAC-SHA256-PAYLOAD", "X-Amz-Decoded-Content-Length", declared, "Content-Encoding", "aws-chunked", "X-Amz-Meta-Streamed", "s")}
+	if cs.MD5 {
+		// the digest of the decoded payload, as the SDKs send it: it must not make a well-formed
+		// stream fail
+		sum := md5.Sum(payload)
+		rq.Header = append(rq.Header, [2]string{"Content-MD5", base64.StdEncoding.EncodeToString(sum[:])})
+	}
 	uploadID := ""
 	if cs.ViaPart {
 		x := s3x.Do(st.Handler, &s3x.Req{Method: "POST", Path: "/bk0/" + key, Query: s3x.Q("uploads", s3x.Bare)})
@@ -350,6 +359,12 @@ func c12Run(t *testing.T, c *evid.Collector) {
 		if len(sizes) >= 2 {
 			labels = append(labels, "multi-chunk")
 		}
+		if cs.ViaPart {
+			labels = append(labels, "via-part")
+		}
+		if cs.MD5 {
+			labels = append(labels, "content-md5")
+		}
 		c.Case(evid.FP(mustJSON(cs)), nt, func() interface{} { return cs }, labels...)
 		return report(c, "stream", ds, cs)
 	}
@@ -375,7 +390,7 @@ func c12Run(t *testing.T, c *evid.Collector) {
 					if i%evid.Shards() != evid.Shard() {
 						continue
 					}
-					cs := c12Case{Backend: cfg.K, StreamBuf: cfg.Buf, Payload: p, Chunks: ch, Frag: fr, Prior: i%2 == 0}
+					cs := c12Case{Backend: cfg.K, StreamBuf: cfg.Buf, Payload: p, Chunks: ch, Frag: fr, Prior: i%2 == 0, MD5: i%5 == 0}
 					record(cs, c12Check(cs), "grid")
 				}
 			}
@@ -392,7 +407,7 @@ func c12Run(t *testing.T, c *evid.Collector) {
 						if i%evid.Shards() != evid.Shard() {
 							continue
 						}
-						cs := c12Case{Backend: cfg.K, StreamBuf: cfg.Buf, Payload: p, Chunks: ch, Frag: fr, Mut: m, MutK: 120, Prior: i%2 == 0, ViaPart: true}
+						cs := c12Case{Backend: cfg.K, StreamBuf: cfg.Buf, Payload: p, Chunks: ch, Frag: fr, Mut: m, MutK: 120, Prior: i%2 == 0, ViaPart: true, MD5: i%3 == 0}
 						record(cs, c12Check(cs), "grid-part")
 					}
 				}
@@ -493,6 +508,8 @@ func c12Run(t *testing.T, c *evid.Collector) {
 			d := fmt.Sprint(n + rapid.SampledFrom([]int{-1, 1, -n, 7, 100000}).Draw(rt, "delta"))
 			cs.Declared = &d
 		}
+		cs.ViaPart = rapid.IntRange(0, 4).Draw(rt, "viapart") == 0
+		cs.MD5 = rapid.IntRange(0, 2).Draw(rt, "md5") == 0
 		if record(cs, c12Check(cs), "random") {
 			rt.Fatalf("C12 violated")
 		}
